@@ -264,8 +264,16 @@ def _roundtrip(chk, src):
             keys = list(inv2.attrs["cache"])
             plain_scale = scale.value if isinstance(scale, fsmodel.NpScalar) else scale
             plain_nf = nf.value if isinstance(nf, fsmodel.NpScalar) else nf
+            def eqv(x, y):
+                if isinstance(x, dag.Node) or isinstance(y, dag.Node):     # symbolic scales: equal as expressions
+                    try:
+                        return dag.is_zero_fp([dag.sub(dag.tonode(x), dag.tonode(y))], chk.seed, 2)[0]
+                    except Exception:
+                        return False
+                return pe.truth(pe.compare(ast.Eq(), x, y))
+
             okk = len(keys) == 1 and isinstance(keys[0], Obj) and keys[0].cls is tcls \
-                and pe.truth(pe.compare(ast.Eq(), keys[0].attrs.get("scale"), plain_scale)) and pe.truth(pe.compare(ast.Eq(), keys[0].attrs.get("nf"), plain_nf))
+                and eqv(keys[0].attrs.get("scale"), plain_scale) and eqv(keys[0].attrs.get("nf"), plain_nf)
             got = pe.apply(_bound(pe, inv2, icls.methods["__getitem__"]), [keys[0] if okk else h], {}) if keys else None
             oko = isinstance(got, Obj) and same(got.attrs.get("operator"), last.attrs["operator"]) and same(got.attrs.get("error"), last.attrs["error"])
             detail = f"headers found {[(str(k.attrs.get('scale')), str(k.attrs.get('nf'))) for k in keys if isinstance(k, Obj)]}, files {fs.names('/eko/operators')}"
